@@ -725,8 +725,10 @@ class Absolute(Unary):
         self.signed = False
 
     def calculate_unary(self, dst, long):
-        with self.ebpf.sr[dst] < 0:
-            self.ebpf.sr[dst] = -self.ebpf.sr[dst]
+        # a signed value computed in 32 bit is zero-extended in the register
+        regs = self.ebpf.sw if self.arg.signed and not long else self.ebpf.sr
+        with regs[dst] < 0:
+            regs[dst] = -regs[dst]
 
 
 class SwitchEndian(Unary):
